@@ -211,6 +211,8 @@ impl LabEffect for d::Effect {
 // ---------------------------------------------------------------------------
 
 pub static UPDATE_REENTERED: AtomicU64 = AtomicU64::new(0);
+/// the heap-occupancy monitor (C13) switches the app's own log off: it grows by design
+pub static KEEP_LOG: AtomicBool = AtomicBool::new(true);
 
 /// Emission log (off by default): every event a script hands to `send_event` / `update_app`,
 /// in emission order. Lets a monitor check conservation (emitted = applied) without a model.
@@ -274,7 +276,9 @@ fn apply<Ef: LabEffect>(
             trail,
             then,
         } => {
-            model.log.push(Logged { tag, val, trail });
+            if KEEP_LOG.load(Ordering::Relaxed) {
+                model.log.push(Logged { tag, val, trail });
+            }
             match then {
                 Some(c) => crate::build::build::<Ef>(&c),
                 None => Command::done(),
